@@ -523,7 +523,7 @@ func loModule(L *LState) int {
 	return 1
 }
 
-var loopdetection = &LUserData{}
+var loopdetection = &LUserData{Metatable: LNil}
 
 func loRequire(L *LState) int {
 	name := L.CheckString(1)
